@@ -582,6 +582,61 @@ fn tracing_run(tier: Tier, acc: &mut Acc) -> Value {
     v
 }
 
+/// Thorough tier: the same totality body under Miri over the sub-alphabets
+/// that reach the unsafe sites (16 processes on disjoint shards, every case
+/// enumerated).
+fn miri_run(acc: &mut Acc) -> Value {
+    let dir = format!("{}/mc/rmc-miri", crate::engine::VERIF_DIR);
+    let shards = 16usize;
+    let handles: Vec<_> = (0..shards)
+        .map(|i| {
+            let dir = dir.clone();
+            std::thread::spawn(move || {
+                std::process::Command::new("cargo")
+                    .args(["+nightly", "miri", "run", "--offline", "--", &i.to_string(), &shards.to_string(), "thorough"])
+                    .current_dir(&dir)
+                    .env("CARGO_NET_OFFLINE", "true")
+                    .env("CARGO_TARGET_DIR", format!("{}/mc/target-miri", crate::engine::VERIF_DIR))
+                    .env("MIRIFLAGS", "-Zmiri-disable-isolation -Zmiri-ignore-leaks")
+                    .env_remove("RUSTFLAGS")
+                    .output()
+            })
+        })
+        .collect();
+    let mut cases = 0u64;
+    let mut total = 0u64;
+    for (i, h) in handles.into_iter().enumerate() {
+        let out = match h.join() {
+            Ok(Ok(o)) => o,
+            _ => crate::engine::machinery_error("cannot run cargo +nightly miri"),
+        };
+        let stdout = String::from_utf8_lossy(&out.stdout);
+        let stderr = String::from_utf8_lossy(&out.stderr);
+        for l in stdout.lines().filter(|l| l.starts_with("@@FAIL")) {
+            acc.violation(Violation::new("miri-totality-failure", l.to_string(), json!({"kind": "miri", "shard": i})));
+        }
+        match stdout.lines().find(|l| l.starts_with("@@MIRI ")) {
+            Some(l) if out.status.success() => {
+                let v: Value = serde_json::from_str(&l[7..]).unwrap_or(Value::Null);
+                cases += v["cases"].as_u64().unwrap_or(0);
+                total = v["total"].as_u64().unwrap_or(0);
+            }
+            _ => {
+                let tail: String = stderr.lines().rev().take(25).collect::<Vec<_>>().into_iter().rev().collect::<Vec<_>>().join("\n");
+                if tail.contains("Undefined Behavior") || tail.contains("error:") {
+                    acc.violation(Violation::new("miri-undefined-behaviour", format!("shard {i}/{shards}: {tail}"), json!({"kind": "miri", "shard": i})));
+                } else {
+                    crate::engine::machinery_error(&format!("miri shard {i} failed without a verdict: {tail}"));
+                }
+            }
+        }
+    }
+    acc.evals += cases;
+    acc.count("miri_cases", cases);
+    json!({"cases_run": cases, "cases_total": total, "processes": shards,
+        "menus": "path token strings <= 4 over 8 tokens; invalid UTF-8 strings <= 3 over 9 bytes (in line / at end of file); custom sample banks around the >= 2 guard; UTF-16 odd tails and lone surrogates"})
+}
+
 pub fn run_generic(prop: &'static str, tier: Tier, args: &[String]) -> i32 {
     let fams = families(tier);
     if !args.iter().any(|a| a == "--child") {
@@ -618,6 +673,10 @@ pub fn run_generic(prop: &'static str, tier: Tier, args: &[String]) -> i32 {
     if is_c01 {
         let tr = tracing_run(tier, &mut acc);
         bounds.insert("tracing_configuration".into(), tr);
+        if tier.thorough() {
+            let m = miri_run(&mut acc);
+            bounds.insert("miri".into(), m);
+        }
     }
     let summary = Summary {
         rule: if is_c01 {
